@@ -520,7 +520,7 @@ Definition s1_builtins : list str := Eval compute in map s_
    "join"; "startswith"; "endswith"; "min"; "max"; "abs"; "sqrt";
    "circle"; "width"; "move"; "line"; "rect"; "color"; "colour"; "stroke"; "fill"; "linecap"; "text";
    (* the pure string and math built-ins of Sem.pure_builtin (results typed in SemSound.pure_builtin_sound) *)
-   "upper"; "lower"; "trim"; "replace"; "index"; "floor"; "ceil"; "round";
+   "upper"; "lower"; "trim"; "replace"; "index"; "split"; "hsl"; "floor"; "ceil"; "round";
    "pow"; "atan2"; "log"; "sin"; "cos"; "rand"; "rand1"]%string.
 
 (* the type component of the fragment predicate: in the strict fragment `any` never occurs inside a
